@@ -474,9 +474,10 @@ Definition tears_of (parse : bytes -> option ublock) (old new : bytes) : list (o
       [encode_ub], to be compared byte for byte with the real block.
     - [(hist mfm (file ...) (round ...))] with [round = (rid pid d0 (t...) (w...) dfin (t...)
       mfid mfhash ((id dig)...))], [t] in [o x n]: for every prefix of the micro-steps
-      [(class nfiles ncommitted (ub dig mf))]: class [refused] / [uncommitted] /
-      [committed] of [open_dir], the length of the opened chain, the length of
-      [committed_at], and the newest entry. *)
+      [(class nfiles ncommitted (ub dig mf) (xclass xnfiles))]: class [refused] /
+      [uncommitted] / [committed] of [open_dir], the length of the opened chain, the length
+      of [committed_at], the newest entry, and class / length for a reader of the other
+      record class.  The file list may be empty (the first round then creates the base). *)
 
 Local Open Scope string_scope.
 
@@ -568,12 +569,14 @@ Definition of_state (mfm : bool) (C : list file) (rs : list round) (n : nat) : s
   let s := crash_state mfm C rs n in
   let nc := of_nat (List.length (committed_at mfm C rs n)) in
   let newest := match rev s with e :: _ => of_entry e | [] => L [] end in
-  match open_dir mfm s with
-  | None => L [A "refused"; of_nat 0; nc; newest]
-  | Some c =>
-      L [A (match fhash (lastf c) with None => "uncommitted" | Some _ => "committed" end);
-         of_nat (List.length c); nc; newest]
-  end.
+  let verdict_of (o : option (list file)) : list sx :=
+    match o with
+    | None => [A "refused"; of_nat 0]
+    | Some c =>
+        [A (match fhash (lastf c) with None => "uncommitted" | Some _ => "committed" end);
+         of_nat (List.length c)]
+    end in
+  L (verdict_of (open_dir mfm s) ++ [nc; newest; L (verdict_of (open_dir (negb mfm) s))]).
 
 Definition run_c11 (x : sx) : sx :=
   match x with
